@@ -31,7 +31,7 @@ def decode(raw):
     from xknx.exceptions import ConversionError, UnsupportedAPCIService
     from xknx.telegram.apci import APCI
 
-    signal.setitimer(signal.ITIMER_REAL, 1.0)
+    signal.setitimer(signal.ITIMER_VIRTUAL, 2.0)   # CPU time of this process: a busy machine does not trip the watchdog
     try:
         o = APCI.from_knx(raw)
         return "svc:" + type(o).__name__, o
@@ -44,7 +44,7 @@ def decode(raw):
     except Exception as ex:  # noqa: BLE001
         return "other:" + type(ex).__name__, None
     finally:
-        signal.setitimer(signal.ITIMER_REAL, 0)
+        signal.setitimer(signal.ITIMER_VIRTUAL, 0)
 
 
 def apdus(ck, rnd):
@@ -67,14 +67,14 @@ def apdus(ck, rnd):
 
 def run04(ck):
     rnd = random.Random(ck.seed)
-    old = signal.signal(signal.SIGALRM, _alarm)
+    old = signal.signal(signal.SIGVTALRM, _alarm)
     cases = []
     try:
         for raw in apdus(ck, rnd):
             out, _o = decode(raw)
             cases.append({"t": "dec", "n": len(raw), "b0": raw[0] if raw else 0, "b1": raw[1] if len(raw) > 1 else 0, "out": out, "hex": raw[:24].hex()})
     finally:
-        signal.signal(signal.SIGALRM, old)
+        signal.signal(signal.SIGVTALRM, old)
     send = [{k: v for k, v in c.items() if k != "hex"} for c in cases]
     res = tlc.batch(ck, "codec/Apci_Judge", send, min_per_shard=8000)
     seen = set()
@@ -104,7 +104,7 @@ def run05(ck):
     from xknx.telegram.tpci import TDataConnected
 
     rnd = random.Random(ck.seed)
-    old = signal.signal(signal.SIGALRM, _alarm)
+    old = signal.signal(signal.SIGVTALRM, _alarm)
     cases = []
     try:
         for k, raw in enumerate(apdus(ck, rnd)):
@@ -135,7 +135,7 @@ def run05(ck):
                 c["out"] = "raised:" + type(ex).__name__
             cases.append(c)
     finally:
-        signal.signal(signal.SIGALRM, old)
+        signal.signal(signal.SIGVTALRM, old)
     send = [{k: v for k, v in c.items() if k not in ("hex", "note")} for c in cases]
     res = tlc.batch(ck, "codec/Apci_Judge", send, min_per_shard=6000)
     seen = set()
